@@ -102,6 +102,41 @@ theorem wtList_mem {t : Ty} {vs : List Val} (h : Ty.wtList t vs = true) : ∀ v 
     · exact h.1
     · exact ih h.2 x hx
 
+/-! Unfolding lemmas for enums (the equation compiler splits `adt` clauses on the variants). -/
+
+theorem Ty.sizeOf_adt_enum (m : AdtMeta) (vs : Variants) (he : m.isEnum = true) :
+    Ty.sizeOf (.adt m vs) = roundUp (roundUp 4 (Variants.maxAlign vs) + Variants.maxSize vs) (Ty.alignOf (.adt m vs)) := by
+  cases vs with
+  | nil => simp [Ty.sizeOf, he]
+  | cons n f r => cases r <;> simp [Ty.sizeOf, he]
+
+theorem Ty.toMem_adt_variant (m : AdtMeta) (vs : Variants) (i : Nat) (fs : List Val) :
+    Ty.toMem (.adt m vs) (.variant i fs) =
+      (leBytes 4 i ++ zeros (roundUp 4 (Variants.maxAlign vs) - 4) ++ Variants.toMem vs i fs) ++
+        zeros (Ty.sizeOf (.adt m vs) - (leBytes 4 i ++ zeros (roundUp 4 (Variants.maxAlign vs) - 4) ++ Variants.toMem vs i fs).length) := by
+  cases vs with
+  | nil => simp [Ty.toMem]
+  | cons n f r => cases r <;> simp [Ty.toMem]
+
+theorem Ty.fromMem_adt_enum (m : AdtMeta) (vs : Variants) (b : B) (he : m.isEnum = true) :
+    Ty.fromMem (.adt m vs) b =
+      .variant (leVal (b.take 4)) (Variants.fromMem vs (leVal (b.take 4)) (b.drop (roundUp 4 (Variants.maxAlign vs)))) := by
+  cases vs with
+  | nil => simp [Ty.fromMem, he]
+  | cons n f r => cases r <;> simp [Ty.fromMem, he]
+
+theorem Ty.wt_adt_record_notEnum (m : AdtMeta) (vs : Variants) (fs : List Val) (h : Ty.wt (.adt m vs) (.record fs) = true) :
+    m.isEnum = false := by
+  cases vs with
+  | nil => simp [Ty.wt] at h
+  | cons n f r => cases r <;> simp [Ty.wt] at h <;> simp [h]
+
+theorem Ty.wt_adt_variant (m : AdtMeta) (vs : Variants) (i : Nat) (fs : List Val) :
+    Ty.wt (.adt m vs) (.variant i fs) = (m.isEnum && Variants.wt vs i fs) := by
+  cases vs with
+  | nil => simp [Ty.wt]
+  | cons n f r => cases r <;> simp [Ty.wt]
+
 mutual
 theorem Ty.memRT : ∀ (t : Ty), t.isZC = true → t.wf = true → ∀ v, t.wt v = true → MemRT t v
   | .prim p, _, _ => by
@@ -173,28 +208,62 @@ theorem Ty.memRT : ∀ (t : Ty), t.isZC = true → t.wf = true → ∀ v, t.wt v
   | .adt m vs, hz, hw => by
       intro v hwt
       simp only [Ty.isZC, Bool.and_eq_true] at hz
-      simp only [Ty.wf, Bool.and_eq_true, hz.1, if_true, Bool.not_eq_true'] at hw
-      have hne : m.isEnum = false := hw.1.2.1
-      match vs, hz, hw, hwt with
-      | .cons vn fds .nil, hz, hw, hwt =>
-        simp only [Variants.allZC, Bool.and_true] at hz
-        simp only [Variants.wf, Bool.and_true] at hw
-        cases v with
-        | record fs =>
-        simp only [Ty.wt, hne, Bool.not_false, Bool.true_and] at hwt
-        have hf := Fields.memRT fds hz.2 hw.1.1.1.2 fs 0 hwt
-        have hpos : 0 < Ty.alignOf (.adt m (.cons vn fds .nil)) := Ty.alignOf_pos _
-        have hge := roundUp_ge (fds.endOffset 0) _ hpos
+      simp only [Ty.wf, Bool.and_eq_true, hz.1, if_true, decide_eq_true_eq] at hw
+      cases v with
+      | record fs =>
+        have hne : m.isEnum = false := Ty.wt_adt_record_notEnum m vs fs hwt
+        match vs, hz, hw, hwt with
+        | .cons vn fds .nil, hz, hw, hwt =>
+          simp only [Variants.allZC, Bool.and_true] at hz
+          simp only [Variants.wf, Bool.and_true] at hw
+          simp only [Ty.wt, hne, Bool.not_false, Bool.true_and] at hwt
+          have hf := Fields.memRT fds hz.2 hw.1.1.1.2 fs 0 hwt
+          have hpos : 0 < Ty.alignOf (.adt m (.cons vn fds .nil)) := Ty.alignOf_pos _
+          have hge := roundUp_ge (fds.endOffset 0) _ hpos
+          refine ⟨?_, fun rest => ?_⟩
+          · simp only [Ty.toMem, Ty.sizeOf, hne, Bool.false_eq_true, if_false, List.length_append, zeros_length]
+            rw [hf.1]; omega
+          · simp only [Ty.toMem, Ty.fromMem, hne, Bool.false_eq_true, if_false, List.append_assoc]
+            have := hf.2 [] (zeros (Ty.sizeOf (.adt m (.cons vn fds .nil)) - (Fields.toMem fds fs 0).length) ++ rest) rfl
+            simp only [List.nil_append] at this
+            rw [this]
+        | .nil, _, hw, _ => simp [hne, Variants.length] at hw
+        | .cons _ _ (.cons _ _ _), _, hw, _ => simp [hne, Variants.length] at hw
+      | variant i fs =>
+        rw [Ty.wt_adt_variant, Bool.and_eq_true] at hwt
+        have he : m.isEnum = true := hwt.1
+        replace hwt := hwt.2
+        have hv := Variants.memRT vs hz.2 hw.1.1.1.2 i fs hwt
+        have hi : i < vs.length := Variants.wt_lt vs i fs hwt
+        have hi32 : i < 2 ^ (8 * 4) := by have := hw.1.2.2; omega
+        have hua : 0 < Variants.maxAlign vs := Variants.maxAlign_pos vs
+        have hstart := roundUp_ge 4 (Variants.maxAlign vs) hua
+        have hpos : 0 < Ty.alignOf (.adt m vs) := Ty.alignOf_pos _
+        have hge := roundUp_ge (roundUp 4 (Variants.maxAlign vs) + Variants.maxSize vs) _ hpos
+        have hbody : (leBytes 4 i ++ zeros (roundUp 4 (Variants.maxAlign vs) - 4) ++ Variants.toMem vs i fs).length
+            = roundUp 4 (Variants.maxAlign vs) + (Variants.toMem vs i fs).length := by
+          simp only [List.length_append, leBytes_length, zeros_length]; omega
+        have hsz := Ty.sizeOf_adt_enum m vs he
         refine ⟨?_, fun rest => ?_⟩
-        · simp only [Ty.toMem, Ty.sizeOf, hne, Bool.false_eq_true, if_false, List.length_append, zeros_length]
-          rw [hf.1]; omega
-        · simp only [Ty.toMem, Ty.fromMem, hne, Bool.false_eq_true, if_false, List.append_assoc]
-          have := hf.2 [] (zeros (Ty.sizeOf (.adt m (.cons vn fds .nil)) - (Fields.toMem fds fs 0).length) ++ rest) rfl
-          simp only [List.nil_append] at this
-          rw [this]
-        | _ => simp [Ty.wt, hne] at hwt
-      | .nil, _, hw, _ => simp [hne, Variants.length] at hw
-      | .cons _ _ (.cons _ _ _), _, hw, _ => simp [hne, Variants.length] at hw
+        · rw [Ty.toMem_adt_variant, List.length_append, zeros_length, hbody, hsz]
+          have := hv.1
+          omega
+        · rw [Ty.toMem_adt_variant, Ty.fromMem_adt_enum m vs _ he]
+          have htag : leVal (List.take 4 (leBytes 4 i ++ zeros (roundUp 4 (Variants.maxAlign vs) - 4) ++ Variants.toMem vs i fs ++
+              zeros (Ty.sizeOf (.adt m vs) - (leBytes 4 i ++ zeros (roundUp 4 (Variants.maxAlign vs) - 4) ++ Variants.toMem vs i fs).length) ++ rest)) = i := by
+            simp only [List.append_assoc]
+            exact leVal_append_leBytes 4 i _ hi32
+          rw [htag]
+          have hdrop : List.drop (roundUp 4 (Variants.maxAlign vs)) (leBytes 4 i ++ zeros (roundUp 4 (Variants.maxAlign vs) - 4) ++ Variants.toMem vs i fs ++
+              zeros (Ty.sizeOf (.adt m vs) - (leBytes 4 i ++ zeros (roundUp 4 (Variants.maxAlign vs) - 4) ++ Variants.toMem vs i fs).length) ++ rest)
+              = Variants.toMem vs i fs ++ (zeros (Ty.sizeOf (.adt m vs) - (leBytes 4 i ++ zeros (roundUp 4 (Variants.maxAlign vs) - 4) ++ Variants.toMem vs i fs).length) ++ rest) := by
+            have hl : (leBytes 4 i ++ zeros (roundUp 4 (Variants.maxAlign vs) - 4)).length = roundUp 4 (Variants.maxAlign vs) := by
+              simp only [List.length_append, leBytes_length, zeros_length]; omega
+            simp only [List.append_assoc]
+            rw [← List.append_assoc (leBytes 4 i), List.drop_append_of_le_length (by omega), List.drop_of_length_le (by omega)]
+            simp
+          rw [hdrop, hv.2]
+      | _ => simp [Ty.wt] at hwt
   | .string, h, _ | .boxStr, h, _ | .vec _, h, _ | .boxSlice _, h, _
   | .option _, h, _ | .bound _, h, _ | .controlFlow _ _, h, _
   | .sliceRef _, h, _ | .serIter _, h, _ => by simp [Ty.isZC] at h
@@ -232,6 +301,31 @@ theorem Fields.memRT : ∀ (f : Fields), f.allZC = true → f.wf = true → ∀ 
           · have := hr.2 (pre ++ zeros (roundUp o t.alignOf - o) ++ t.toMem v) rest (by simp [hv.1]; omega)
             simp only [List.append_assoc] at this
             exact this
+theorem Variants.memRT : ∀ (vs : Variants), vs.allZC = true → vs.wf = true → ∀ (i : Nat) (fs : List Val), vs.wt i fs = true →
+    (vs.toMem i fs).length ≤ vs.maxSize ∧ ∀ rest, vs.fromMem i (vs.toMem i fs ++ rest) = fs
+  | .nil, _, _ => by
+      intro i fs hwt
+      simp [Variants.wt] at hwt
+  | .cons vn f r, hz, hw => by
+      intro i fs hwt
+      simp only [Variants.allZC, Bool.and_eq_true] at hz
+      simp only [Variants.wf, Bool.and_eq_true] at hw
+      cases i with
+      | zero =>
+        simp only [Variants.wt] at hwt
+        have hf := Fields.memRT f hz.1 hw.1 fs 0 hwt
+        have hge := roundUp_ge (f.endOffset 0) f.maxAlign (Fields.maxAlign_pos f)
+        refine ⟨?_, fun rest => ?_⟩
+        · simp only [Variants.toMem, Variants.maxSize]; rw [hf.1]; omega
+        · simp only [Variants.toMem, Variants.fromMem]
+          have := hf.2 [] rest rfl
+          simpa using this
+      | succ i =>
+        simp only [Variants.wt] at hwt
+        have hr := Variants.memRT r hz.2 hw.2 i fs hwt
+        refine ⟨?_, fun rest => ?_⟩
+        · simp only [Variants.toMem, Variants.maxSize]; have := hr.1; omega
+        · simp only [Variants.toMem, Variants.fromMem]; exact hr.2 rest
 end
 
 end Eps
